@@ -132,8 +132,20 @@ def _flow_written_only_while_augmenting(ctx: Ctx, f):
     ctx.ob("C08-O3", "R27 WRITE-OWNERSHIP", f, "flow entries and the total are increased only inside the augmenting loop", not late, f"`{ast.unparse(late[0])[:60]}` runs outside the loop: flow that is not the bottleneck of a path found in the residual network can exceed a capacity shared by several routes (parallel arcs into one node, a self loop)" if late else "", node=late[0] if late else f.node)
 
 
+
+def _arc_names(f):
+    """(tail, head) as the construction loop over `graph` names them: `for T in graph: for H, cap, *_ in graph[T]`"""
+    for lp in own_nodes(f.node):
+        if isinstance(lp, ast.For) and isinstance(lp.iter, ast.Name) and lp.iter.id == "graph" and isinstance(lp.target, ast.Name):
+            for inner in ast.walk(lp):
+                if isinstance(inner, ast.For) and inner is not lp and isinstance(inner.target, ast.Tuple) and inner.target.elts and isinstance(inner.target.elts[0], ast.Name):
+                    return lp.target.id, inner.target.elts[0].id
+    return "u", "v"
+
+
 def run(ctx: Ctx):
     f = ctx.func("flow", "max_flow")
+    tail_, head_ = _arc_names(f)
     ctx.step(flow_table_starts_at_zero, f)
     ctx.step(_flow_written_only_while_augmenting, f)
     ctx.assume("node labels are equal to themselves (x == x): a NaN label is never recognised as the sink by `node == sink`")
@@ -246,7 +258,7 @@ def run(ctx: Ctx):
         want_at = {atom_of(f"{b} not in visited"), atom_of(f"{res_txt} > 0")}
         extra = sorted(a for a in at if a not in want_at and not a.startswith("IN-LOOP:") and a not in ("T:queue", atom_of("node != sink")))
         ctx.ob("C08-O5", "R21 search discipline", bfs, "a neighbour is enqueued under exactly `unvisited and residual > 0`", want_at <= at and not extra, f"guards {sorted(at)}", node=e)
-    capw = [n for n in own_nodes(f.node) if isinstance(n, ast.AugAssign) and ast.unparse(n.target) == "capacity[u][v]"]
+    capw = [n for n in own_nodes(f.node) if isinstance(n, ast.AugAssign) and ast.unparse(n.target) == f"capacity[{tail_}][{head_}]"]
     fcfg = cfg_of(f.node)
     fgv = GuardView(fcfg)
     for cw in capw:
@@ -302,7 +314,7 @@ def run(ctx: Ctx):
             defs = [d.value for d in own_nodes(f.node) if isinstance(d, ast.Assign) and isinstance(sol, ast.Name) and ast.unparse(d.targets[0]) == sol.id]
             ok = len(defs) == 1 and isinstance(defs[0], ast.DictComp) and ast.unparse(defs[0].key) == "(u, v)" and ast.unparse(defs[0].value) == "flow[u][v]" and any(ast.unparse(i) == "flow[u][v] > 0" for g in defs[0].generators for i in g.ifs) and [ast.unparse(g.iter) for g in defs[0].generators] == ["flow", "flow[u]"]
             ctx.ob("C08-O4", "R5 PAIRING", f, "solution = exactly the positive entries of the flow map", ok, "", node=s.call)
-    pooled = any(isinstance(s, ast.AugAssign) and isinstance(s.op, ast.Add) and ast.unparse(s.target) == "capacity[u][v]" for s in own_nodes(f.node))
+    pooled = any(isinstance(s, ast.AugAssign) and isinstance(s.op, ast.Add) and ast.unparse(s.target) == f"capacity[{tail_}][{head_}]" for s in own_nodes(f.node))
     ctx.ob("C08-O4", "R18 SIBLING-AGREEMENT (policy)", f, "parallel arcs are pooled on input (capacity accumulates)", pooled, "", node=f.node)
     generic_sweeps(ctx)
 
